@@ -1,0 +1,68 @@
+# Verification hooks. Inert unless the environment variable PYDROBERT_SPEECH_VERIF is "1".
+#
+# emit(event, **fields)    appends one JSON line to $PYDROBERT_SPEECH_VERIF_TRACE (if set), with a
+#                          per-process sequence number; no wall-clock time.
+# crashpoint(name, **ctx)  consults $PYDROBERT_SPEECH_VERIF_CRASH = "<point>:<occurrence>:<kind>" and,
+#                          at the given occurrence (0-based) of the named point, kills the process
+#                          (kind "hard": SIGKILL), interrupts it (kind "soft": KeyboardInterrupt) or
+#                          (kind "mid", at before_save only) writes the first half of the serialised
+#                          tensor to the destination and then kills the process: the on-disk effect
+#                          of a kill in the middle of the write.
+import json
+import os
+
+ENABLED = os.environ.get("PYDROBERT_SPEECH_VERIF") == "1"
+_seq = 0
+_counts = {}
+
+
+def emit(event, **fields):
+    global _seq
+    if not ENABLED:
+        return
+    path = os.environ.get("PYDROBERT_SPEECH_VERIF_TRACE")
+    if not path:
+        return
+    _seq += 1
+    rec = {"pid": os.getpid(), "seq": _seq, "event": event}
+    rec.update(fields)
+    fd = os.open(path, os.O_WRONLY | os.O_APPEND | os.O_CREAT, 0o644)
+    try:
+        os.write(fd, (json.dumps(rec) + "\n").encode())
+    finally:
+        os.close(fd)
+
+
+def crashpoint(name, **ctx):
+    if not ENABLED:
+        return
+    spec = os.environ.get("PYDROBERT_SPEECH_VERIF_CRASH")
+    if not spec:
+        return
+    point, occurrence, kind = spec.split(":")
+    if point != name:
+        return
+    n = _counts.get(name, 0)
+    _counts[name] = n + 1
+    if n != int(occurrence):
+        return
+    import signal
+
+    if kind == "soft":
+        emit("crash", kind="soft", point=name)
+        raise KeyboardInterrupt("verification crash point " + name)
+    if kind == "mid":
+        import io
+
+        import torch
+
+        buf = io.BytesIO()
+        torch.save(ctx["obj"], buf)
+        data = buf.getvalue()
+        with open(ctx["path"], "wb") as f:
+            f.write(data[: len(data) // 2])
+            f.flush()
+        emit("crash", kind="mid", point=name)
+    else:
+        emit("crash", kind="hard", point=name)
+    os.kill(os.getpid(), signal.SIGKILL)
